@@ -21,6 +21,17 @@ CHECKS = {
              "on generated programs after every operation (shapes + element addresses via [] , (), apply(tuple), home() cursor).",
         design_ref="5/C01", technique="Coq proof (induction over operation lists, refinement to index-map spec) + extracted-model "
                                       "vs library differential on view programs"),
+    "C02": dict(
+        text="Theorems C02_array_iterator_laws (any view, any index base: begin/end delimit size() positions; ++/-- inverse; "
+             "(it+k)-k==it; (it+k)-it==k; < iff positive difference; == iff same position; it[k] is *(it+k); *(begin+p) is the "
+             "sub-view at the p-th valid index; any ++/--/+=/-= trace denotes the computed position), C02_elements_iterator_laws "
+             "(invariant over arbitrary traces inside [begin,end] keeping the flat position and the index tuple in step; deref, "
+             "[k], elements()[k], front, back designate the element at the p-th tuple in canonical order; rank bijection), "
+             "C02_canonical_is_lexicographic, C02_reachable (composed with C01 for every reachable view). Tie: random iterator "
+             "walks on begin()/end() and elements() of generated views compared step by step with the extracted model, plus "
+             "model-independent monitors (deref equals indexing, const==mutable, comparisons consistent with differences).",
+        design_ref="5/C02", technique="Coq proof (invariant by induction over iterator-operation traces, mixed-radix lemmas) + "
+                                      "extracted-model vs library differential on iterator walks"),
 }
 
 NOT_YET = {
